@@ -57,28 +57,56 @@ Module Legacy.
     end.
 End Legacy.
 
-(* ---- correspondence interface ------------------------------------------------ *)
-(* a case: policy (max sleep, optional retry limit, initial sleep), the number of delays already
-   produced (hook `verif_backoff`), and how many calls of next() to observe *)
-Record case := mk_case { c_max : Z; c_limit : option Z; c_init : Z; c_count0 : Z; c_n : Z }.
+(* ---- the loop of AsyncSecureChannel::connect (client/transport/channel.rs) --------------- *)
+(* `let mut backoff = policy.new_backoff(); loop { match connect_no_retry() { Ok => break Ok,
+   Err(s) => match backoff.next() { None => break Err(s), Some(d) => sleep(d) } } }` against a
+   server that refuses every attempt.  [fuel] bounds the attempts the observer waits for.
+   Result: the number of attempts made, 1 if the loop gave up (0 if still trying when the
+   observer stopped), and the delays slept. *)
+Fixpoint connect (fuel : nat) (s : st) : Z * Z * list Z :=
+  match fuel with
+  | O => (0, 0, [])
+  | S f => match next s with
+           | (None, _) => (1, 1, [])
+           | (Some d, s') => let '(a, g, ds) := connect f s' in (1 + a, g, d :: ds)
+           end
+  end.
 
-Definition init_state (c : case) : st :=
+Module LegacyConnect.
+  (* the pinned code before the fix created the back-off INSIDE the loop: every failed attempt
+     consulted a fresh iterator *)
+  Fixpoint connect (fuel : nat) (s0 : st) : Z * Z * list Z :=
+    match fuel with
+    | O => (0, 0, [])
+    | S f => match next s0 with
+             | (None, _) => (1, 1, [])
+             | (Some d, _) => let '(a, g, ds) := connect f s0 in (1 + a, g, d :: ds)
+             end
+    end.
+End LegacyConnect.
+
+(* ---- correspondence interface ------------------------------------------------ *)
+(* a policy case: policy (max sleep, optional retry limit, initial sleep), the number of delays already
+   produced (hook `verif_backoff`), and how many calls of next() to observe *)
+Record pcase := mk_pcase { c_max : Z; c_limit : option Z; c_init : Z; c_count0 : Z; c_n : Z }.
+
+Definition init_state (c : pcase) : st :=
   {| max_sleep := c_max c; max_retries := c_limit c; cur := c_init c; count := c_count0 c |}.
 
 (* output: one entry per call, the delay in ns, -1 for None, -2 for a panic (which ends the list) *)
-Definition run (c : case) : list Z := take (Z.to_nat (c_n c)) (init_state c).
+Definition run_p (c : pcase) : list Z := take (Z.to_nat (c_n c)) (init_state c).
 
 (* the specification, written independently of [next]: exact arithmetic, closed-form limit *)
 Fixpoint delay (mx d0 : Z) (k : nat) : Z :=
   match k with O => d0 | S k' => Z.min mx (2 * delay mx d0 k') end.
 
-Definition in_limit (c : case) (k : nat) : bool :=
+Definition in_limit (c : pcase) (k : nat) : bool :=
   match c_limit c with Some m => c_count0 c + Z.of_nat k <? m | None => true end.
 
-Definition spec_item (c : case) (k : nat) : Z :=
+Definition spec_item (c : pcase) (k : nat) : Z :=
   if in_limit c k then delay (c_max c) (c_init c) k else -1.
 
-Definition spec (c : case) : list Z := map (spec_item c) (seq 0 (Z.to_nat (c_n c))).
+Definition spec_p (c : pcase) : list Z := map (spec_item c) (seq 0 (Z.to_nat (c_n c))).
 
 Fixpoint list_eqb (a b : list Z) : bool :=
   match a, b with
@@ -87,10 +115,63 @@ Fixpoint list_eqb (a b : list Z) : bool :=
   | _, _ => false
   end.
 
+Definition valid_p (c : pcase) : Prop :=
+  0 <= c_max c <= DMAX /\ 0 <= c_init c <= DMAX /\ 0 <= c_count0 c <= U32MAX /\
+  match c_limit c with Some m => 0 <= m <= U32MAX | None => True end.
+
+(* How the policy object is obtained (SessionRetryPolicy's constructors and the client
+   configuration), and what is observed.
+     New       SessionRetryPolicy::new(max, limit, initial)
+     Infinity  SessionRetryPolicy::infinity(max, initial)            (the limit field is ignored)
+     Never     SessionRetryPolicy::never()                           (only the count/n fields are used)
+     Default   SessionRetryPolicy::default()
+     Config l  ClientBuilder .session_retry_limit(l) .session_retry_max(max)
+               .session_retry_initial(initial), Client::new          (l = -1: unlimited)
+   c_pre: delays drawn from a FIRST iterator of the same policy object before the observed
+   iterator is created (a policy must hand out independent iterators).
+   c_connect: false = observe c_n calls of next(); true = run AsyncSecureChannel::connect
+   (through Client::get_server_endpoints_from_url) against a listener that drops every
+   connection and observe at most c_n attempts. *)
+Inductive how := New | Infinity | Never | Default | Config (l : Z).
+
+Record case := mk_case { c_how : how; c_pre : Z; c_connect : bool; c_p : pcase }.
+
+Definition MS : Z := 1000000.
+(* the policy the constructor is documented to build *)
+Definition policy_of (c : case) : pcase :=
+  let p := c_p c in
+  match c_how c with
+  | New => p
+  | Infinity => mk_pcase (c_max p) None (c_init p) (c_count0 p) (c_n p)
+  | Never => mk_pcase (30000 * MS) (Some 0) (500 * MS) (c_count0 p) (c_n p)
+  | Default => mk_pcase (30000 * MS) (Some 10) (500 * MS) (c_count0 p) (c_n p)
+  | Config l => mk_pcase (c_max p) (if l <? 0 then None else Some l) (c_init p) (c_count0 p) (c_n p)
+  end.
+
+Definition enc_connect (r : Z * Z * list Z) : list Z := let '(a, g, _) := r in [a; g].
+
+Definition run (c : case) : list Z :=
+  let p := policy_of c in
+  if c_connect c then enc_connect (connect (Z.to_nat (c_n p)) (init_state p))
+  else run_p p.
+
+(* connect: the loop makes one attempt, then one more per delay the policy yields, and gives up
+   when the policy is exhausted *)
+Definition spec_connect (p : pcase) : list Z :=
+  match c_limit p with
+  | Some m => let y := Z.max 0 (m - c_count0 p) in     (* delays the policy still yields *)
+              if y <? c_n p then [y + 1; 1] else [Z.max 0 (c_n p); 0]
+  | None => [Z.max 0 (c_n p); 0]
+  end.
+
+Definition spec (c : case) : list Z :=
+  let p := policy_of c in
+  if c_connect c then spec_connect p else spec_p p.
+
 Definition oracle (c : case) (out : list Z) : bool := list_eqb out (spec c).
 
 Definition known (c : case) : Z := 0.
 
 Definition valid (c : case) : Prop :=
-  0 <= c_max c <= DMAX /\ 0 <= c_init c <= DMAX /\ 0 <= c_count0 c <= U32MAX /\
-  match c_limit c with Some m => 0 <= m <= U32MAX | None => True end.
+  valid_p (policy_of c) /\ 0 <= c_pre c /\
+  match c_how c with Config l => -1 <= l | _ => True end.
